@@ -35,6 +35,7 @@ From Coq Require Import List Permutation.
 From PV Require Import Lib.Py Model.Graph Model.Persist.
 From PV Require Import Proofs.C01Base Proofs.C01Inv Proofs.C01 Proofs.C03Graph Proofs.C03.
 From PV Require Import Proofs.C01Weak Proofs.C03Weak.
+From PV Require Import Proofs.C03Example Proofs.C03Resave Proofs.C03Local.
 Import ListNotations.
 
 (* PARTIAL (C03_abs): the loaded model denotes the same workbook with the same
@@ -214,3 +215,104 @@ Theorem C03_idempotent_weak_partial : forall G cdeps csem rsem M,
     forall k, d_get (fst (to_text G M')) k = d_get (fst (to_text G M)) k.
 Proof. exact idempotent_weak_p. Qed.
 Print Assumptions C03_idempotent_weak_partial.
+
+(* ---- repeated saves of one object, for EVERY extra_data (Proofs/C03Resave.v).
+   _to_text updates the user's extra_data dictionary in place and afterwards
+   deletes only 'cell_map': the first save moves the object to a state that
+   further saves leave alone … *)
+Theorem C03_save_settles : forall G M,
+  snd (to_text G (snd (to_text G M))) = snd (to_text G M).
+Proof. exact save_settles. Qed.
+Print Assumptions C03_save_settles.
+
+(* … so from the SECOND save on, every save of the unchanged object writes the
+   same document, key order included (the first can differ: C03_resave_needed) *)
+Theorem C03_resave_stable : forall G M n,
+  fst (to_text G (Nat.iter (S n) (fun M => snd (to_text G M)) M))
+  = fst (to_text G (snd (to_text G M))).
+Proof. exact resave_stable. Qed.
+Print Assumptions C03_resave_stable.
+
+(* C03_resave_partial with the condition weakened: extra_data may be a dictionary
+   provided it has a 'filename' key and no 'cell_map' key … *)
+Theorem C03_resave_keeps_filename : forall G M d,
+  pm_extra M = Some d -> d_get d k_filename <> None -> d_get d k_cells = None ->
+  fst (to_text G (snd (to_text G M))) = fst (to_text G M).
+Proof. exact resave_keeps_filename. Qed.
+Print Assumptions C03_resave_keeps_filename.
+
+(* … which every model read back from a save meets (its extra_data is the
+   document minus cycles / cell_map / excel_hash: the file name stays), whatever
+   the extra_data of the saved model was: saving a LOADED model twice gives
+   identical documents *)
+Theorem C03_resave_loaded : forall G cdeps csem rsem M M',
+  roundtrip_pkl G cdeps csem rsem M = Ok M' ->
+  fst (to_text G (snd (to_text G M'))) = fst (to_text G M').
+Proof. exact resave_roundtrip. Qed.
+Print Assumptions C03_resave_loaded.
+
+(* the condition of C03_resave_partial is needed for a freshly compiled model:
+   a closed model with extra_data = {'note': 1} whose first two documents differ
+   in the order of the top-level keys *)
+Theorem C03_resave_needed : exists G M,
+  fst (to_text G (snd (to_text G M))) <> fst (to_text G M) /\
+  map fst (fst (to_text G M)) = [k_note; k_cycles; k_hash; k_cells; k_filename] /\
+  map fst (fst (to_text G (snd (to_text G M)))) = [k_note; k_cycles; k_hash; k_filename; k_cells].
+Proof. exact resave_needed. Qed.
+Print Assumptions C03_resave_needed.
+
+(* ---- the saved text of a cell is a function of the cell alone
+   (Proofs/C03Local.v; is_saved_key M n: n is a key of the cell map and not a
+   range node).  No condition on the model: no pm_ok, sort keys may collide,
+   pm_order may repeat a key. *)
+Theorem C03_cell_local : forall G M n,
+  (is_saved_key M n -> lookup (saved_cells G M) n = Some (cell_value M n)) /\
+  (~ is_saved_key M n -> lookup (saved_cells G M) n = None).
+Proof. exact cell_local. Qed.
+Print Assumptions C03_cell_local.
+
+(* as a MAPPING the saved cell map depends on the SET of keys and the cells only:
+   not on the insertion order, not on how sorted() breaks ties between equal sort
+   keys (C03_deterministic: the LIST, which needs distinct sort keys) *)
+Theorem C03_cell_map_order_free : forall G M1 M2,
+  (forall n, In n (pm_order M1) <-> In n (pm_order M2)) ->
+  (forall n, In n (pm_order M1) ->
+     wb_range (pm_wb M1) n = wb_range (pm_wb M2) n /\ cell_value M1 n = cell_value M2 n) ->
+  forall n, lookup (saved_cells G M1) n = lookup (saved_cells G M2) n.
+Proof. exact cell_map_order_free. Qed.
+Print Assumptions C03_cell_map_order_free.
+
+(* ---- the document a LOADED model writes, as a LIST (Proofs/C03Resave.v): the
+   document it was read from minus cycles / cell_map / excel_hash (so the user's
+   keys and 'filename', in their old order), then cycles, excel_hash, cell_map.
+   No condition beyond a successful load of a document with a file name. *)
+Theorem C03_loaded_doc_shape : forall G cdeps csem rsem f M' v,
+  from_text G cdeps csem rsem f = Ok M' -> d_get f k_filename = Some (TV v) ->
+  fst (to_text G M') =
+    d_del (d_del (d_del f k_cycles) k_cells) k_hash ++
+    [(k_cycles, TV (pm_cycles M')); (k_hash, TV (pm_hash M')); (k_cells, TCells (saved_cells G M'))].
+Proof. exact loaded_doc_shape. Qed.
+Print Assumptions C03_loaded_doc_shape.
+
+(* PARTIAL (C03_idempotent, list level): save . load . save written out in terms
+   of the ORIGINAL model — key order included.  Missing: no_eq_text /
+   code_nonblank, as for C03_idempotent_partial. *)
+Theorem C03_idempotent_doc_partial : forall G cdeps csem rsem M,
+  pm_ok G cdeps M -> wf (pm_wb M) -> code_nonblank csem rsem ->
+  Inv (pm_wb M) (pm_sem csem rsem M) (pm_state M) -> no_eq_text M ->
+  exists M', roundtrip_pkl G cdeps csem rsem M = Ok M' /\
+    fst (to_text G M') =
+      d_del (d_del (d_del (fst (to_text G M)) k_cycles) k_cells) k_hash ++
+      [(k_cycles, TV (pm_cycles M)); (k_hash, TV (pm_hash M)); (k_cells, TCells (saved_cells G M))].
+Proof. exact idempotent_doc. Qed.
+Print Assumptions C03_idempotent_doc_partial.
+
+(* "same content for every key" (C03_idempotent_partial) cannot be strengthened
+   to "same document": even with extra_data = None the save of the loaded model
+   has another key order than the original's (the file name moves to the front) *)
+Theorem C03_idempotent_order_needed : exists G cdeps csem rsem M M',
+  pm_extra M = None /\ roundtrip_pkl G cdeps csem rsem M = Ok M' /\
+  map fst (fst (to_text G M)) = [k_cycles; k_hash; k_cells; k_filename] /\
+  map fst (fst (to_text G M')) = [k_filename; k_cycles; k_hash; k_cells].
+Proof. exact idempotent_order_needed. Qed.
+Print Assumptions C03_idempotent_order_needed.
